@@ -24,7 +24,7 @@ public:
     char* alloc_memory(size_t size, const char*, size_t) CPPUTEST_OVERRIDE
     {
         char* p = (char*) malloc(size ? size : 1);
-        memset(p, 0xCD, size);
+        if (p) memset(p, 0xCD, size);       // a request for ~SIZE_MAX bytes fails: the code under test receives NULL
         long id = g_next_id++;
         g_ids[p] = id;
         Ev e = { 1, id, size }; g_ev.push_back(e);
